@@ -34,7 +34,12 @@ CONSTANTS MaxMsgs,     \* bound on the number of messages (exhaustive model / ge
           Excl,        \* TRUE: the backend Conn serialises Writer() until Close() (coder default backend)
           WinLock,     \* TRUE: encode is one critical section (writeWindowBufMu)
           Fault,       \* "none" or a seeded model fault (sensitivity runs): noTrimReader, readerWPlus1, noTrimWriter
-          ReadPolicy   \* "any" | "eager" (read directly after every write) | "lazy" (all writes first)
+          ReadPolicy,  \* "any" | "eager" (read directly after every write) | "lazy" (all writes first)
+          StrictBackend,    \* TRUE: Conn.Reader() is refused while the previous message's reader has not reached the end of the
+                            \* message (coder / nhooyr: "previous message not read to completion"); FALSE: the rest is discarded (gorilla)
+          DrainAfterDecode  \* TRUE: Transport.Read reads the message reader to its end after decoding; FALSE (before the repair): the
+                            \* compressed modes stop where the DEFLATE stream ends, and a message written through Conn.Writer()
+                            \* (data frames, then an empty final frame at Close) is left before its end
 
 Writers == 1..NWriters
 
@@ -75,7 +80,9 @@ Init0(mode, W) ==
      fdict |-> [g \in Writers |-> <<>>],
      holder |-> 0,                           \* writer owning the Conn writer (Excl)
      wl |-> 0,                               \* writer holding writeWindowBufMu: from encode until its wr.Write returned
-     open |-> {}, inter |-> FALSE, fail |-> FALSE, last |-> "none"]
+     open |-> {}, inter |-> FALSE, fail |-> FALSE, last |-> "none",
+     left |-> FALSE,                         \* the previous message's reader was left before the end of the message
+     refused |-> FALSE]                      \* a Conn.Reader() call was refused
 
 \* ---- writer steps (Transport.Write) ----
 Start(st, g, n) ==
@@ -100,12 +107,16 @@ Write(st, g, n) == Rel(Emit(Enc(Acq(Start(st, g, n), g), g), g), g)
 \* ---- reader (Transport.Read): one frame per call ----
 Read(st) ==
     IF st.chan = <<>> THEN [st EXCEPT !.last = "empty"]
+    ELSE IF StrictBackend /\ st.left
+    THEN [st EXCEPT !.refused = TRUE, !.fail = TRUE, !.reads = Append(@, [k |-> 0, ok |-> FALSE]), !.last = "refused"]
     ELSE LET f == Head(st.chan)
              ok == st.mode # "ct" \/ f.dict = st.rw
          IN [st EXCEPT !.chan = Tail(@),
                        !.reads = Append(@, [k |-> f.k, ok |-> ok]),
                        !.rw = IF st.mode = "ct" /\ ok THEN TrimR(AppendMsg(@, f.k, st.msgs[f.k].n), st.W) ELSE @,
-                       !.fail = @ \/ ~ok, !.last = "read"]
+                       !.fail = @ \/ ~ok, !.last = "read",
+                       \* the uncompressed mode copies until the reader reports the end of the message
+                       !.left = st.mode # "off" /\ ~DrainAfterDecode]
 
 Apply(st, op) ==
     CASE op.a = "write" -> Write(st, op.tag, op.n)
@@ -165,6 +176,8 @@ InOrderOf(st) ==
 \* nobody writes into the connection while another writer's message is open
 NoInterleaveOf(st) == ~st.inter
 NoDecodeFailureOf(st) == ~st.fail
+\* the backend never refuses to hand out the next message
+NoReaderRefusedOf(st) == ~st.refused
 \* the dictionary is the suffix of the concatenated plaintext of length min(total, W)
 RECURSIVE Concat(_, _)
 Concat(st, ids) == IF ids = <<>> THEN <<>>
@@ -177,5 +190,5 @@ WindowIsSuffixOf(st) ==
 NoWindowWithoutTakeoverOf(st) == st.mode # "ct" => (st.ww = <<>> /\ st.rw = <<>>)
 
 AllInvOf(st) == /\ DictionariesEqualOf(st) /\ HeadDecodableOf(st) /\ ReadEqualsWriteOf(st) /\ InOrderOf(st)
-                /\ NoInterleaveOf(st) /\ NoDecodeFailureOf(st) /\ WindowIsSuffixOf(st) /\ NoWindowWithoutTakeoverOf(st)
+                /\ NoInterleaveOf(st) /\ NoDecodeFailureOf(st) /\ NoReaderRefusedOf(st) /\ WindowIsSuffixOf(st) /\ NoWindowWithoutTakeoverOf(st)
 =============================================================================
